@@ -767,6 +767,8 @@ class Interp:
             raise Unsupported("symbolic key into concrete dict", node)
         if isinstance(v, SymList):
             return self.lib.seq_getitem(self, v, idx, node)
+        if isinstance(v, Seq):
+            return self.lib.seq_getitem(self, SymList(v), idx, node)
         r = self.lib.getitem(self, v, idx, node)
         if r is not NotImplemented:
             return r
@@ -1272,6 +1274,7 @@ class Interp:
         ctx = self.ctx
         ctx.assume(L >= 0)
         fr._loop_pre = dict(fr.locals)
+        self.prepare_types(spec, fr)
         # init
         self.check_invariant(spec, fr, 0, L, label, "init", st)
         # havoc
@@ -1322,6 +1325,7 @@ class Interp:
         ctx = self.ctx
         pre = dict(fr.locals)
         fr._loop_pre = pre
+        self.prepare_types(spec, fr)
         self.check_invariant(spec, fr, None, None, label, "init", st)
         self.havoc_loop(st, spec, fr)
         fr._loop_pre = pre
@@ -1370,10 +1374,23 @@ class Interp:
             for f in _aslist(spec.use(s)):
                 self.ctx.assume(f)
 
+    def prepare_types(self, spec, fr):
+        """Fix the sorts of lazily typed containers (empty dict/set literals) named in spec.types."""
+        for n, t in spec.types.items():
+            v = fr.locals.get(n)
+            if isinstance(t, tuple) and v is not None and hasattr(v, "init_sorts") and not v.ready:
+                v.init_sorts(self, *t)
+            elif isinstance(v, PyList) and not v.items and hasattr(t, "empty"):
+                # an empty list literal that the loop fills: re-type it as a symbolic-length list
+                for k2, x in fr.locals.items():
+                    if x is v and k2 != n:
+                        raise Unsupported("empty list %r is aliased by %r at loop entry" % (n, k2))
+                fr.locals[n] = t.empty(self.ctx, n)
+
     def havoc_loop(self, st, spec, fr):
         names, mutated = _assigned_in(st)
         for n in sorted(names):
-            if n in spec.types:
+            if n in spec.types and not isinstance(spec.types[n], tuple) and not isinstance(fr.locals.get(n), SymList):
                 fr.locals[n] = spec.types[n].fresh(self.ctx, n)
                 continue
             if n not in fr.locals:
